@@ -382,6 +382,14 @@ func (o *Manager) shouldRecordObservation(conn connMultiaddrs, observed ma.Multi
 		return false, thinWaist{}, thinWaist{}
 	}
 
+	// Ignore observations made on relayed connections. Such a connection's
+	// local address is the local address of our connection to the relay, and
+	// its remote address is the relay's: the report says nothing about how the
+	// reporting peer reaches us, and it would be credited to the relay's IP.
+	if isRelayedAddress(conn.RemoteMultiaddr()) {
+		return false, thinWaist{}, thinWaist{}
+	}
+
 	localTW, err := thinWaistForm(conn.LocalMultiaddr())
 	if err != nil {
 		log.Info("failed to get interface listen addrs", "err", err)
